@@ -73,7 +73,7 @@ pub fn fixture(variant: u64) -> Fix {
     install_sig_scheme(&v);
     v.mut_primitives().override_compute_unsealed_sector_cid(crate::minerops::fake_unsealed_cid_pub);
     v.set_epoch(100 + (variant as i64) * 977);
-    let accts = make_accounts(&v, 16, 11_000 + variant, &fil(10_000_000));
+    let accts = make_accounts(&v, 22, 11_000 + variant, &fil(10_000_000));
     let secp: Vec<Address> = accts.iter().cloned().enumerate().filter(|(i, _)| i % 2 == 0).map(|x| x.1).collect();
     let bls: Vec<Address> = accts.iter().cloned().enumerate().filter(|(i, _)| i % 2 == 1).map(|x| x.1).collect();
     let keys: BTreeMap<Address, Address> = accts.iter().map(|a| (*a, key_of(&v, a))).collect();
@@ -194,6 +194,23 @@ pub fn fixture(variant: u64) -> Fix {
     let dl_open = crate::minerops::deadline_at(&pol, ms1.proving_period_start, v.epoch());
     assert_eq!(dl_open.index, d_open);
     let live = Live { d_far, d_open, far_sectors: vec![10, 11, 12, 13], faulty: 11, precommitted: 900, expiration: exp, open_challenge: dl_open.challenge };
+    // ---- a miner handed over to a new owner while the previous owner's beneficiary proposal was pending:
+    // the proposal died with the handover, so only the new owner may (re)open it
+    let (old_owner, new_owner, nominee) = (secp[8], secp[9], bls[7]);
+    who.insert("oldowner", old_owner);
+    who.insert("owner2", new_owner);
+    who.insert("nominee", nominee);
+    let hm = create_miner(&v, &old_owner, &bls[6], RegisteredPoStProof::StackedDRGWindow32GiBV1P1);
+    who.insert("hminer", hm);
+    // (a third party already is the beneficiary, so the new proposal needs approvals and stays pending)
+    let third = secp[10];
+    let bp0 = fil_actor_miner::ChangeBeneficiaryParams { new_beneficiary: third, new_quota: fil(500), new_expiration: 9_500_000 };
+    assert!(call(&v, &old_owner, &hm, &TokenAmount::zero(), MinerM::ChangeBeneficiary as u64, Some(&bp0)).0.code.is_success());
+    assert!(call(&v, &third, &hm, &TokenAmount::zero(), MinerM::ChangeBeneficiary as u64, Some(&bp0)).0.code.is_success());
+    let hp = fil_actor_miner::ChangeBeneficiaryParams { new_beneficiary: nominee, new_quota: fil(77), new_expiration: 9_000_000 };
+    assert!(call(&v, &old_owner, &hm, &TokenAmount::zero(), MinerM::ChangeBeneficiary as u64, Some(&hp)).0.code.is_success());
+    assert!(call(&v, &old_owner, &hm, &TokenAmount::zero(), MinerM::ChangeOwnerAddress as u64, Some(&new_owner)).0.code.is_success());
+    assert!(call(&v, &new_owner, &hm, &TokenAmount::zero(), MinerM::ChangeOwnerAddress as u64, Some(&new_owner)).0.code.is_success());
     // every caller class can pay for value-carrying cells
     for n in CALLERS {
         call0(&v, &secp[3], &who[n], &fil(50), METHOD_SEND);
@@ -386,6 +403,7 @@ pub fn spec() -> Vec<Cell> {
     c.push(cell!("lminer", MinerM::GetVestingFundsExported, "GetVestingFunds", Who::Any, move |_, _| (zero(), None)));
     c.push(cell!("lminer", MinerM::GetSectorSizeExported, "GetSectorSize", Who::Any, move |_, _| (zero(), None)));
     c.push(cell!("lminer", MinerM::ChangeBeneficiary, "ChangeBeneficiary(propose)", only(&["owner"]), move |f: &Fix, _| (zero(), ser(&fil_actor_miner::ChangeBeneficiaryParams { new_beneficiary: f.who["stranger"], new_quota: fil(5), new_expiration: f.v.epoch() + 1000 }))));
+    c.push(cell!("hminer", MinerM::ChangeBeneficiary, "ChangeBeneficiary(proposal of the previous owner)", only(&["owner2"]), move |f: &Fix, _| (zero(), ser(&fil_actor_miner::ChangeBeneficiaryParams { new_beneficiary: f.who["nominee"], new_quota: fil(77), new_expiration: 9_000_000 }))));
     // ---- market / power rows that need a provider
     c.push(cell!("market", Mk::PublishStorageDeals, "PublishStorageDeals", only(&["owner", "worker", "control"]), move |f: &Fix, _| {
         let prop = make_proposal(77, f.who["client"], f.who["miner"], f.v.epoch() + 3000, 180 * market::DAY + 10, 12, "c11-second");
@@ -470,7 +488,7 @@ pub fn spec() -> Vec<Cell> {
 }
 
 pub const CALLERS: &[&str] = &[
-    "system", "init", "reward", "cron", "power", "market", "verifreg", "datacap", "eam", "rootmsig", "miner", "miner2", "lminer", "owner", "worker", "control", "beneficiary",
+    "system", "init", "reward", "cron", "power", "market", "verifreg", "datacap", "eam", "rootmsig", "miner", "miner2", "lminer", "hminer", "oldowner", "owner2", "nominee", "owner", "worker", "control", "beneficiary",
     "stranger", "signer1", "signer2", "signer3", "msig", "msig3", "othermsig", "payer", "payee", "paych", "verifier", "client", "evm", "ethaccount",
 ];
 
